@@ -15,6 +15,7 @@ RULE = (
     'the MLL, every strategy x variational distribution, seed); every element of the broadcast batch is compared; distinct = cell without seed; '
     'non-trivial iff the broadcast batch has >= 2 elements'
     '; pass 5: leave-one-out objective replicas (where it evaluates); IndependentMultitaskVariationalStrategy against per-task replicas with and without task_indices'
+    '; pass 6: NNVariationalStrategy (VNNGP) against per-element replicas for batch ranks 1 and 2'
 )
 REQUIRED = ["kernel_replica", "mean_replica", "likelihood_replica", "posterior_replica", "mll_replica", "svgp_replica", "kl_replica", "elbo_replica", "model_list_identical", "sum_mll_is_mean"]
 ASSUMPTIONS = ["the leave-one-out objective is compared element-wise wherever it evaluates; it refuses (explicit reshape error) parameters with more batch dimensions than the targets - counted under info:, not a violation (the statement names marginal log likelihood, ELBO and KL)", "replicas are built by slicing the batched object's state_dict: a tensor with batch dims (possibly size-1) is indexed with the element's index (0 on size-1 dims)"]
